@@ -388,6 +388,81 @@ fn c07_as_json_text() {
     as_json_text(v, w, false);
 }
 
+//@ harness: c07_as_json_text_qb
+//@ tier: quick
+//@ timeout: 700
+//@ mem: 12
+//@ unwindset: read_id=34; read_pubkey=34; read_hex=66; memcmp.0=34; memchr=12; read_u64=24; burn_string=30; eat_whitespace=6; burn_number=12; json_unescape=8; parse_json_filter=72; c07_=90; json_escape=8; enc_tags=6; put_bytes=8; push=90
+//@ encodes: Filter::as_json, json_escape, Filter::from_parts
+//@ bounds: the tags-only filter e:[v w] built by Filter::from_parts with (v, w) = (quote, backslash): as_json produces exactly the reference writer's text {"#e":["v","w"]} with canonical NIP-01 escapes
+//@ outside: two arbitrary values at once and control characters (thorough: c07_as_json_text, c07_as_json_text_ints)
+//@ assumes: std::fmt::format stubbed (unreachable: no control characters in these instances)
+#[kani::proof]
+#[kani::unwind(8)]
+#[kani::stub(core::panic::Location::caller, stub_caller)]
+#[kani::stub(std::fmt::format, stub_format)]
+fn c07_as_json_text_qb() {
+    as_json_text(b'"', b'\\', false);
+}
+//@ harness: c07_as_json_text_v
+//@ tier: thorough
+//@ timeout: 3000
+//@ mem: 16
+//@ unwindset: read_id=34; read_pubkey=34; read_hex=66; memcmp.0=34; memchr=12; read_u64=24; burn_string=30; eat_whitespace=6; burn_number=12; json_unescape=8; parse_json_filter=72; c07_=90; json_escape=8; enc_tags=6; put_bytes=8; push=90
+//@ encodes: Filter::as_json, json_escape, Filter::from_parts
+//@ bounds: as c07_as_json_text_qb with v an ARBITRARY printable ASCII byte 0x20..=0x7e and w = 'a' (did not finish in 700 s)
+//@ assumes: std::fmt::format stubbed (unreachable: no control characters)
+#[kani::proof]
+#[kani::unwind(8)]
+#[kani::stub(core::panic::Location::caller, stub_caller)]
+#[kani::stub(std::fmt::format, stub_format)]
+fn c07_as_json_text_v() {
+    let v: u8 = kani::any();
+    kani::assume(v >= 0x20 && v < 0x7f);
+    as_json_text(v, b'a', false);
+}
+
+//@ harness: c07_escaped_text_parses_to_parts_image
+//@ tier: quick
+//@ timeout: 700
+//@ mem: 12
+//@ unwindset: read_id=34; read_pubkey=34; read_hex=66; memcmp.0=34; memchr=12; read_u64=24; burn_string=30; eat_whitespace=6; eat_whitespace_and_commas=6; burn_array=6; burn_number=12; json_unescape=8; parse_json_filter=72; c07_=90; enc_tags=6; put_bytes=8
+//@ encodes: Filter::from_json, Filter::from_parts
+//@ bounds: the constant text {"#e":["\"","\\"]} - which c07_as_json_text_qb decides to be what as_json writes for the filter e:[quote, backslash] - parsed into a buffer with arbitrary prior contents is byte-identical to that filter as built by from_parts: together the two harnesses give the as_json/from_json round trip on an escape-needing filter without carrying a heap string through the parser (the one-query form is c07_as_json_roundtrip_qb, thorough)
+#[kani::proof]
+#[kani::unwind(8)]
+#[kani::stub(core::panic::Location::caller, stub_caller)]
+fn c07_escaped_text_parses_to_parts_image() {
+    let pool = [b'e', b'"', b'\\'];
+    let shape: [&[usize]; 1] = [&[1, 1, 1]];
+    let mut tbuf = [0u8; 24];
+    let tl = enc_tags(&shape, &pool, &mut tbuf);
+    let ts: &[u8] = &tbuf[..tl];
+    let tags: &Tags = unsafe { &*(ts as *const [u8] as *const Tags) };
+    let mut fbuf = [0u8; 64];
+    let f = match Filter::from_parts(&[], &[], &[], tags, None, None, None, &mut fbuf) {
+        Ok(f) => f,
+        Err(e) => {
+            core::mem::forget(e);
+            panic!("from_parts")
+        }
+    };
+    let flen = f.len();
+    let mut out: [u8; 64] = kani::any();
+    let (consumed, written, f2) = match Filter::from_json(FESC, &mut out) {
+        Ok(x) => x,
+        Err(e) => {
+            core::mem::forget(e);
+            panic!("the library's own JSON spelling is rejected")
+        }
+    };
+    kani::cover!(true);
+    assert!(consumed == FESC.len() && written == flen);
+    let k: usize = kani::any();
+    kani::assume(k < flen);
+    assert!(f2.as_bytes()[k] == fbuf[k]);
+}
+
 //@ harness: c07_as_json_text_ints
 //@ tier: thorough
 //@ timeout: 3600
